@@ -24,6 +24,7 @@ RULE = (
     "note data, or NOTES2 is the note key, or the note item is not last, or a metacharacter/None value, or >= 3 edits; "
     "distinct = distinct history JSON"
 )
+RULE += " " + "Added after the seeding rounds: a complete grid of small boundary constructions (an escaped-on-save token 0..3 characters before offset 256..8192 of the value or of the whole text), key/value pairs that coincide when glued or printed (a colon moved between key and value, None / 'None'), U+FEFF inside keys and values."
 ASSUMPTIONS = [
     "msdparser.parse_msd is the trusted tokenizer",
     "values inside msdparser's escaping gap are outside the domain (known findings)",
